@@ -114,7 +114,7 @@ def run_check(prop, tier, replay=None):
         print("MACHINERY-FAILURE property=%s the harness's own model disagrees with reality (not a verdict): %s" % (
             pid, xf[:5]))
         for f in xf[:3]:
-            print("   record: %s" % json.dumps(next((r for r in recs if r["id"] == f[0]), None))[:900])
+            print("   record: %s" % json.dumps(next((r for r in recs if r["id"] == f[0]), None))[:4000])
         core.cleanup_tmproot()
         return 2
     byid = {c["id"]: c for c in cases}
